@@ -70,6 +70,11 @@ PlanOf(p) ==
                     \cup { Cell(op, key, ThetaElem[i], Cyc(<<"zero", "1", "1e3">>, i + h), <<"posdn", "negdn">>[h], Cyc(Dirs, i + h),
                                  Cyc(ThetaElem, i + 3 * h), "1", 0) :
                              op \in {"compose", "inverse", "act"}, key \in Range(GroupsQ), i \in 1..Len(ThetaElem), h \in 1..2 }
+                    \* operands with DIFFERENT zero patterns (round 9): one has its d-th linear block exactly zero, the other is generic
+                    \* (alternating which); in ElementCells both operands share the direction code
+                    \cup { Cell("composex", key, ThetaElem[i], Cyc(<<"1", "zero", "1e3">>, i + d), Hemis[h], <<"z0", "z1", "z2">>[d],
+                                 Cyc(ThetaElem, i + d + h), "1", 0) :
+                             key \in Range(GroupsQ), i \in 1..Len(ThetaElem), d \in 1..3, h \in 1..2 }
     [] p = "C02" -> TangentCells({"exp"}, ThetaAll, LinAll, 0) \cup Sweep({"exp"}, 0)
     [] p = "C03" -> ElementCells({"log", "logtwin"}, ThetaElem, LinAll, <<"generic">>, <<"1">>, 0)
                     \cup TangentCells({"explog"}, ThetaAll, LinAll, 0)
